@@ -18,7 +18,7 @@ PROCS = 4
 
 def gen_cases(rng, thorough):
     """list of cases (JSON-able dicts).  kinds: string / files / repo / mock"""
-    scale = 12 if thorough else 1
+    scale = 9 if thorough else 1
     cases = []
 
     def s(mof, tag, ns=None):
@@ -55,6 +55,8 @@ def gen_cases(rng, thorough):
         cases.append(gen_cycle_case(rng, k))
     for _ in range(16 * scale):
         cases.append(gen_found_on_search_path_case(rng))
+    for _ in range(45 * scale):
+        cases.append(gen_include_graph(rng))
     for _ in range(200 * scale):
         cases.append(gen_repo_case(rng))
     cases.extend(exhaustive_repo_cases())
@@ -187,6 +189,38 @@ def gen_found_on_search_path_case(rng):
         main = rng.choice(['nodir/F_Extra.mof', 'f_extra.mof', 'F_Extra.MOF'])
     return {'kind': 'files', 'files': files, 'main': main, 'search': ['sp'], 'via': 'file' if main != 'main.mof' else
             rng.choice(['file', 'string']), 'handle': rng.choice(['plain', 'plain', 'mock']), 'tag': 'files:found_on_sp'}
+
+
+def gen_include_graph(rng):
+    """random graph of files including each other (cycles, self-includes, missing files, fan-out) with good statements,
+    syntax errors and dependency errors in between; carries the abstract structure the model gets"""
+    n = rng.choice([1, 2, 2, 3, 4, 5])
+    files, model = {}, []
+    for i in range(n):
+        text, stmts = [], []
+        for j in range(rng.choice([0, 1, 2, 3, 4])):
+            r = rng.random()
+            if r < 0.45:
+                g = rng.randrange(n + 1)
+                if g == n:
+                    text.append('#pragma include ("missing_%d.mof")' % j)
+                    stmts.append({'file': 99})
+                else:
+                    text.append('#pragma include ("g%d.mof")' % g)
+                    stmts.append({'file': g})
+            elif r < 0.85:
+                text.append('class KI_%d_%d { uint8 p; };' % (i, j))
+                stmts.append({'leaf': {'ok': None}})
+            elif r < 0.93:
+                text.append('class KI_%d_%d { uint8 p @ };' % (i, j))
+                stmts.append({'leaf': {'exc': 'MOFParseError'}})
+            else:
+                text.append('instance of KI_Nope_%d_%d { p = 1; };' % (i, j))
+                stmts.append({'leaf': {'exc': 'MOFDependencyError'}})
+        files['g%d.mof' % i] = '\n'.join(text) + '\n'
+        model.append(stmts)
+    return {'kind': 'files', 'files': files, 'main': 'g0.mof', 'search': [], 'via': 'file', 'handle': 'plain',
+            'model': model, 'tag': 'files:include_graph'}
 
 
 CODES = list(range(1, 29))
@@ -618,6 +652,10 @@ def run(run):
     k_first_error(run, cases, observations)
     # ---- K 6: values the CIM object constructors reject are reported as MOFParseError
     k_values(run, rng)
+    # ---- K 8: nested compile_file over arbitrary include graphs (termination through the nesting limit)
+    k_includes(run, cases, observations)
+    # ---- K 7: the LALR driver on the extracted tables vs the real ply engine; the syntax pipeline vs real compiles
+    k_parser(run, cases, observations, rng)
 
 
 def k_lexer(run, cases, observations):
@@ -757,37 +795,14 @@ def k_repo(run, cases, observations):
 
 
 def k_first_error(run, cases, observations):
-    """if the model's token stream contains an error token, the real compile must fail with a parse error reported at a
-    token at or before it, at the (line, column) the model computes for that token; if the real compile succeeds the
-    model's stream has no error token"""
-    reqs, refs = [], []
+    """if the real compile succeeds, the model's token stream has no error token (the exact position of syntax errors is
+    compared by k_parser, which replaced the per-token candidate check done here before)"""
     for i, (c, o) in enumerate(zip(cases, observations)):
-        if c['kind'] != 'string' or 'mtoks' not in o or o['mtoks'] is None:
+        if c['kind'] != 'string' or o.get('mtoks') is None:
             continue
-        out = o['out']
         errs = [t for t in o['mtoks'] if t[0].startswith('err')]
-        if out.get('ok'):
-            if errs:
-                run.disagree({'op': 'first_error', 'mof': c['mof']}, errs[0], 'ok', 'model sees an error token, real compile succeeds')
-            continue
-        if out.get('mof') and out.get('site') == 'p_error' and out.get('lineno') is not None and o.get('unit') == 'outer':
-            # reported at a LexToken: must be one of the model's tokens up to the first error token
-            upto = o['mtoks']
-            if errs:
-                upto = upto[:o['mtoks'].index(errs[0]) + 1]
-            for t in upto:
-                reqs.append({'op': 'col', 'src': common.cps(c['mof']), 'pos': t[1] if t[1] is not None else 0})
-                refs.append((i, t))
-    answers = common.run_driver(PROP, reqs) if reqs else []
-    cands = {}
-    for (i, t), a in zip(refs, answers):
-        cands.setdefault(i, set()).add((t[3], a['col']))
-    for i, cs in cands.items():
-        out = observations[i]['out']
-        run.count('first_error_checked')
-        if (out['lineno'], out['column']) not in cs:
-            run.disagree({'op': 'first_error', 'mof': cases[i]['mof']}, sorted(cs)[-3:], [out['lineno'], out['column']],
-                         'error position is not the model position of a token up to the first error token')
+        if o['out'].get('ok') and errs:
+            run.disagree({'op': 'first_error', 'mof': c['mof']}, errs[0], 'ok', 'model sees an error token, real compile succeeds')
 
 
 VAL_TYPES = ['uint8', 'sint8', 'uint16', 'sint32', 'uint64', 'sint64', 'real32', 'real64', 'string', 'boolean', 'datetime',
@@ -852,6 +867,170 @@ def k_values(run, rng):
         if a != impl:
             run.disagree({'op': 'cimObject', 'mof': mof, 'constructor': direct}, a, impl,
                          'compile outcome is not the translated constructor outcome')
+
+
+def k_includes(run, cases, observations):
+    import pywbem._mof_compiler as mc
+    limit = getattr(mc, 'MAX_MOF_FILE_NESTING', None)
+    reqs, refs = [], []
+    for i, c in enumerate(cases):
+        if c.get('tag') != 'files:include_graph':
+            continue
+        if limit is None:
+            run.count('include_graph:source_has_no_nesting_limit')
+            continue
+        # compile_file(main) itself is the first nesting level
+        reqs.append({'op': 'files', 'files': c['model'], 'limit': limit, 'main': [{'file': 0}]})
+        refs.append(i)
+    answers = common.run_driver(PROP, reqs) if reqs else []
+    for i, a in zip(refs, answers):
+        out = observations[i]['out']
+        exc = out.get('exc')
+        if exc in ('FileNotFoundError', 'IsADirectoryError'):
+            exc = 'OSError'
+        impl = {'ok': None} if out.get('ok') else {'exc': exc}
+        run.count('include_graph:' + ('ok' if out.get('ok') else str(exc)))
+        if a != impl:
+            run.disagree({'op': 'files', 'files': cases[i]['files']}, a, impl, 'nested compile_file outcome differs')
+
+
+_LR = {}
+
+
+class _Syn(Exception):
+    def __init__(self, tok):
+        Exception.__init__(self)
+        self.tok = tok
+
+
+def real_lr(types):
+    """the REAL ply LALR engine (ply.yacc.LRParser.parse) with the REAL tables of the MOF grammar on a stream of token
+    types; the semantic actions are replaced by no-ops and the error callback records the token and the state"""
+    import pywbem._mof_compiler as mc
+    from ply import lex
+    if 'p' not in _LR:
+        p = mc._yacc(False)
+        for pr in p.productions:
+            pr.callable = lambda pp: None
+
+        def err(tok):
+            raise _Syn(tok)
+        p.errorfunc = err
+        _LR['p'] = p
+    p = _LR['p']
+
+    class Feed:
+        def __init__(self):
+            self.i = 0
+
+        def token(self):
+            if self.i >= len(types):
+                return None
+            t = lex.LexToken()
+            t.type, t.value, t.lineno, t.lexpos, t.idx = types[self.i], 'v', 1, self.i, self.i
+            self.i += 1
+            return t
+    try:
+        p.parse(lexer=Feed())
+        return {'accept': len(types)}
+    except _Syn as e:
+        return {'error': [len(types) if e.tok is None else e.tok.idx, p.statestack[-1]]}
+    except Exception as e:       # a fault inside the engine
+        return {'fault': type(e).__name__}
+
+
+def types_of(mof, toks):
+    """PLY token types of a real token stream in the harness format (None if the lexer raised)"""
+    out = []
+    for kind, pos, ln, line, extra in toks:
+        if kind.startswith('raise'):
+            return None
+        if kind == 'ident':
+            out.append(extra)
+        elif kind == 'literal':
+            out.append(mof[pos])
+        elif kind.startswith('err'):
+            out.append('error')
+        else:
+            out.append(kind)
+    return out
+
+
+def k_parser(run, cases, observations, rng):
+    import pywbem._mof_compiler as mc
+    terminals = sorted(set(mc.reserved.values()) | {'IDENTIFIER', 'stringValue', 'floatValue', 'charValue', 'binaryValue',
+                                                    'octalValue', 'decimalValue', 'hexValue'} | set(mc.literals))
+    # (a) token-type streams: real token streams of the generated texts, mutated at the type level, and random ones
+    streams = []
+    idx = [i for i, o in enumerate(observations) if o.get('toks') is not None and cases[i]['kind'] == 'string']
+    rng.shuffle(idx)
+    for i in idx[:(4000 if run.thorough else 500)]:
+        ty = types_of(cases[i]['mof'], observations[i]['toks'])
+        if ty is None or len(ty) > 400:
+            continue
+        streams.append(ty)
+        m = list(ty)
+        if m:
+            j = rng.randrange(len(m))
+            how = rng.randrange(4)
+            if how == 0:
+                del m[j]
+            elif how == 1:
+                m.insert(j, m[j])
+            elif how == 2:
+                m[j] = rng.choice(terminals + ['error'])
+            else:
+                m.insert(j, rng.choice(terminals))
+            streams.append(m)
+    for _ in range(3000 if run.thorough else 400):
+        streams.append([rng.choice(terminals + ['error']) for _ in range(rng.choice([0, 1, 2, 3, 5, 8, 12]))])
+    answers = common.run_driver(PROP, [{'op': 'wf'}] + [{'op': 'lr', 'types': ty} for ty in streams])
+    wf = answers[0]
+    run.extra['parser_tables'] = wf
+    if not wf.get('wf'):
+        run.disagree({'op': 'wf'}, wf, None, 'extracted LALR tables fail the well-formedness evaluation')
+    for ty, a in zip(streams, answers[1:]):
+        r = real_lr(ty)
+        run.case({'kind': 'lr', 'types': ty}, nontrivial='error' in r)
+        run.count('lr:' + ('accept' if 'accept' in r else 'error' if 'error' in r else 'fault'))
+        if 'fault' in r:
+            run.violate({'kind': 'leak', 'exc': r['fault'], 'site': 'ply.yacc', 'cause': 'other', 'api': 'parser.parse'},
+                        {'kind': 'lr', 'types': ty}, r)
+        if a != r:
+            run.disagree({'op': 'lr', 'types': ty}, a, r, 'LALR driver and ply engine differ')
+    # (b) the syntax pipeline (model lexer + LALR driver) vs the real compile of the same text
+    sel = [i for i in idx if len(cases[i]['mof']) <= 3000][:(6000 if run.thorough else 900)]
+    answers = common.run_driver(PROP, [{'op': 'parse', 'src': common.cps(cases[i]['mof'])} for i in sel])
+    for i, a in zip(sel, answers):
+        out = observations[i]['out']
+        syn = out.get('mof') and out.get('site') == 'p_error' and observations[i].get('unit') == 'outer' and out.get('file') is None
+        where = None
+        if syn:
+            where = 'eof' if out.get('lineno') is None else [out['lineno'], out['column']]
+        run.count('parse:' + next(iter(a)))
+        bad = None
+        if 'fault' in a:
+            bad = 'model parse engine fault'
+        elif 'accept' in a:
+            if syn:
+                bad = 'model accepts the syntax, real compile reports a syntax error'
+        elif 'errtok' in a:
+            pos, ln, line, col, st = a['errtok']
+            if out.get('ok'):
+                bad = 'model reports a syntax error, real compile succeeds'
+            elif syn and where != [line, col]:
+                bad = 'syntax error reported at another position'
+        elif 'erreof' in a:
+            if out.get('ok'):
+                bad = 'model reports a syntax error at the end, real compile succeeds'
+            elif syn and where != 'eof':
+                bad = 'real compile reports a syntax error before the end'
+        elif 'raised' in a:
+            if out.get('ok') or syn:
+                bad = 'model: the lexer raises before any syntax error, real compile disagrees'
+        if bad:
+            run.disagree({'op': 'parse', 'mof': cases[i]['mof']}, a, {'syntax_error': where, 'exc': out.get('exc', 'ok'),
+                                                                    'site': out.get('site')}, bad)
 
 
 # --------------------------------------------------------------------------- search / replay
